@@ -43,24 +43,27 @@ def replaceAll (pat rep s : List Char) : List Char :=
 def PH_STATE : List Char := ['{','s','t','a','t','e','_','d','i','r','e','c','t','o','r','y','}']
 def PH_NAME : List Char := ['{','n','a','m','e','}']
 def PH_EXCL : List Char := ['{','e','x','c','l','u','d','e','d','_','v','a','r','i','a','b','l','e','s','}']
+def PH_ENV : List Char := ['{','e','n','v','i','r','o','n','m','e','n','t','_','n','a','m','e','s','}']
 def PH_PERSIST : List Char := ['{','p','e','r','s','i','s','t','_','s','t','a','t','e','}']
 def PH_EXPR : List Char := ['{','s','h','e','l','l','_','e','x','p','r','e','s','s','i','o','n','}']
 
 /-- `{persist_state}` value: `if detached { "0" } else { "1" }` -/
 def persistValue (detached : Bool) : List Char := if detached then ['0'] else ['1']
 
-/-- the four substitutions that precede the user's expression, in source order -/
-def substOthers (tpl stateDir name excluded : List Char) (detached : Bool) : List Char :=
+/-- the five substitutions that precede the user's expression, in source order (`envNames`: the names of the
+variables of the test case's configured environment, separated by blanks; since fix 843ec3a) -/
+def substOthers (tpl stateDir name excluded envNames : List Char) (detached : Bool) : List Char :=
   replaceAll PH_PERSIST (persistValue detached)
-    (replaceAll PH_EXCL excluded
-      (replaceAll PH_NAME name
-        (replaceAll PH_STATE stateDir tpl)))
+    (replaceAll PH_ENV envNames
+      (replaceAll PH_EXCL excluded
+        (replaceAll PH_NAME name
+          (replaceAll PH_STATE stateDir tpl))))
 
 /-- the script handed to the shell: the user's expression is substituted last -/
-def render (tpl stateDir name excluded : List Char) (detached : Bool) (expr : List Char) : List Char :=
-  replaceAll PH_EXPR expr (substOthers tpl stateDir name excluded detached)
+def render (tpl stateDir name excluded envNames : List Char) (detached : Bool) (expr : List Char) : List Char :=
+  replaceAll PH_EXPR expr (substOthers tpl stateDir name excluded envNames detached)
 
-/-- decidable hypothesis of `C13_expression_verbatim`: after the other four substitutions the
+/-- decidable hypothesis of `C13_expression_verbatim`: after the other five substitutions the
 expression placeholder occurs exactly once -/
 def exprOnce (t : List Char) : Bool :=
   match splitFirst PH_EXPR t with
